@@ -75,6 +75,7 @@ const ACTIVE_DEFAULT: &[&str] = &[
     "append.id",
     "append.stored",
     "reader.start",
+    "read.lock",
     "read.sub",
     "hist.start",
     "hist.send",
@@ -462,7 +463,9 @@ pub fn run_one(sc: &Scenario, prefix: &[usize], props: &[&str]) -> ExecResult {
                     late_beats += 1;
                 }
             }
-            check_reader(ri, rs, &log, g_start, &app, &ctx_ids, &pre_ids, &senders, late_beats, &mut findings, props, probed || !sc.probe, sc.clock_jump);
+            // the subscription is taken in the step that follows the grant of `read.lock`
+            let g_sub = steps.iter().position(|s| s.who.kind == "rd" && s.who.n as usize == ri + 1 && s.op == "read.lock").map(|p| p + 1).unwrap_or(g_start);
+            check_reader(ri, rs, &log, g_start, g_sub, &app, &ctx_ids, &pre_ids, &senders, late_beats, &mut findings, props, probed || !sc.probe, sc.clock_jump);
             outcome.push_str(&format!(
                 "r{}:[{}]{};",
                 ri,
@@ -635,6 +638,7 @@ fn check_reader(
     rs: &ReaderSpec,
     log: &ReaderLog,
     g_start: usize,
+    g_sub: usize,
     app: &[Appended],
     ctx_ids: &[Scru128Id],
     pre_ids: &[Scru128Id],
@@ -677,7 +681,7 @@ fn check_reader(
             continue;
         }
         let existed = a.writer.is_none() || a.done < g_start; // append had returned before the read began
-        let began_after_sub = a.writer.is_some() && a.began > g_start;
+        let began_after_sub = a.writer.is_some() && a.began > g_sub;
         if rs.tail {
             if existed {
                 forbidden.insert(a.frame.id);
@@ -907,6 +911,15 @@ pub fn scenarios(prop: &str, tier: &str) -> Vec<Scenario> {
                     s.readers = vec![rd("on", tail, last, None, None)];
                     v.push(s);
                 }
+            }
+            // an ephemeral frame appended during the replay, followed by a stored one: the scan may
+            // pick up the stored one, the ephemeral one only ever arrives through the subscription
+            for (start, last) in [("begin", None), ("lastid", Some(0usize))] {
+                let mut s = base(&format!("h1-{}-eph-first", start));
+                s.pre = vec![fs("h", 0, "")];
+                s.writers = vec![vec![fs("a", 0, "ephemeral"), fs("a", 0, "")]];
+                s.readers = vec![rd("on", false, last, None, None)];
+                v.push(s);
             }
             // scoped reader, writers in both contexts
             let mut s = base("h1-ctx-2w1");
